@@ -1,6 +1,6 @@
 /-! Calibration: thread-modular (Owicki–Gries style) proof of serial-lane exclusion
     for ANY number of threads and ANY client programs. Serial lane, async + barrier sync. -/
-namespace LaneM
+namespace LaneR
 
 abbrev Tid := Nat
 abbrev ItemId := Nat
@@ -61,6 +61,10 @@ structure Sh where
   tokens : Nat := 0
   signalled : List Tid := []
   xfer : Option (Tid × Tid) := none   -- ghost: (new owner, transferring thread)
+  infl : List Tid := []     -- ghost: threads whose push made the list non-empty and that have not yet woken the queue
+  tl : List Tid := []       -- ghost: drainers between token pop and try_lock
+  past : Bool := false      -- ghost: the owner is past its last emptiness check
+  eOwned : Bool := false    -- ghost: the ENQUEUED bit is owned by the draining owner
 
 def kPc : K → Pc
   | .done => .idle
@@ -69,6 +73,8 @@ def kPc : K → Pc
 
 def linkItem (items : List Item) (id : ItemId) : List Item :=
   items.map fun it => if it.id = id then { it with linked := true } else it
+
+def rm (l : List Tid) (t : Tid) : List Tid := l.filter (· ≠ t)
 
 def canPop : List Item → Bool
   | [] => false
@@ -85,19 +91,20 @@ def step (sh : Sh) (t : Tid) (pc : Pc) (op : Op) : List (Sh × Pc) :=
   | .idle =>
     match op with
     | .async id =>
-      [({ sh with items := sh.items ++ [{ id := id, waiter := none, linked := false }] },
+      [({ sh with items := sh.items ++ [{ id := id, waiter := none, linked := false }],
+                  infl := if sh.items.isEmpty then t :: sh.infl else sh.infl },
         .pPushed id sh.items.isEmpty)]
     | .sync id => [(sh, .sTry id)]
     | .worker => [(sh, .wIdle)]
   | .pPushed id we => [({ sh with items := linkItem sh.items id }, .pLinked id we)]
   | .pLinked _ we =>
     if !we then [(sh, .idle)] else
-    if sh.items.isEmpty then [(sh, .idle)] else
+    if sh.items.isEmpty then [({ sh with infl := rm sh.infl t }, .idle)] else
     let enq := !d.E && d.O.isNone
     [({ sh with dq := { d with E := d.E || enq, D := true },
-                tokens := sh.tokens + (if enq then 1 else 0) }, .idle)]
+                tokens := sh.tokens + (if enq then 1 else 0), infl := rm sh.infl t }, .idle)]
   | .sTry id =>
-    if d.idle then [({ sh with dq := { d with B := true, F := true, O := some t } }, .sRunFast id)]
+    if d.idle then [({ sh with dq := { d with B := true, F := true, O := some t }, past := false, eOwned := false }, .sRunFast id)]
     else [(sh, .sSlowPush id)]
   | .sRunFast id => [(sh, .sRunningFast id)]
   | .sRunningFast _ => [(sh, .sFastUnlock)]
@@ -106,21 +113,23 @@ def step (sh : Sh) (t : Tid) (pc : Pc) (op : Op) : List (Sh × Pc) :=
     if d.E || d.D then [(sh, .bc1 false .done)]
     else [({ sh with dq := { d with B := false, F := false, O := none } }, .idle)]
   | .sSlowPush id =>
-    [({ sh with items := sh.items ++ [{ id := id, waiter := some t, linked := false }] },
+    [({ sh with items := sh.items ++ [{ id := id, waiter := some t, linked := false }],
+                infl := if sh.items.isEmpty then t :: sh.infl else sh.infl },
       .sSlowLink id sh.items.isEmpty)]
   | .sSlowLink id we =>
     let sh' := { sh with items := linkItem sh.items id }
     if we then [(sh', .sSlowRmw id)] else [(sh', .sWait id)]
   | .sSlowRmw id =>
-    if d.O.isSome || !d.runnable then [({ sh with dq := { d with D := true } }, .sWait id)]
-    else [({ sh with dq := { d with D := false, B := true, F := true, O := some t } }, .bc1 false (.toWait id))]
+    if d.O.isSome || !d.runnable then [({ sh with dq := { d with D := true }, infl := rm sh.infl t }, .sWait id)]
+    else [({ sh with dq := { d with D := false, B := true, F := true, O := some t }, infl := rm sh.infl t,
+                      past := false, eOwned := false }, .bc1 false (.toWait id))]
   | .sWait id =>
     if sh.signalled.contains t then [({ sh with signalled := sh.signalled.erase t }, .sRunSlow id)] else []
   | .sRunSlow id => [(sh, .sRunningSlow id)]
   | .sRunningSlow _ => [(sh, .bc1 false .done)]
   | .bc1 c2 k =>
     match sh.items with
-    | [] => [(sh, .bc2 false c2 k)]
+    | [] => [({ sh with past := true }, .bc2 false c2 k)]
     | h :: _ =>
       if !h.linked then [] else
       if h.waiter.isSome then [(sh, .dbwPop false k)]
@@ -129,8 +138,8 @@ def step (sh : Sh) (t : Tid) (pc : Pc) (op : Op) : List (Sh × Pc) :=
     let base := { d with B := false, F := false, O := none }
     if target then
       [({ sh with dq := { base with E := true }, tokens := sh.tokens + (if d.E then 0 else 1) }, kPc k)]
-    else if d.D then [({ sh with dq := { d with D := false } }, .bc1 false k)]
-    else [({ sh with dq := base }, kPc k)]
+    else if d.D then [({ sh with dq := { d with D := false }, past := false }, .bc1 false k)]
+    else [({ sh with dq := base, past := false }, kPc k)]
   | .dbwPop enq k =>
     match sh.items with
     | h :: rest =>
@@ -140,16 +149,18 @@ def step (sh : Sh) (t : Tid) (pc : Pc) (op : Op) : List (Sh × Pc) :=
       | none => []
     | [] => []
   | .dbwRmw w enq k =>
-    [({ sh with dq := { d with O := some w, D := false, E := if enq then false else d.E }, xfer := some (w, t) },
+    [({ sh with dq := { d with O := some w, D := false, E := if enq then false else d.E }, xfer := some (w, t),
+                eOwned := if enq then false else sh.eOwned },
       .dbwSignal w k)]
   | .dbwSignal w k => [({ sh with signalled := w :: sh.signalled, xfer := none }, kPc k)]
   | .wIdle =>
-    if sh.tokens > 0 then [({ sh with tokens := sh.tokens - 1 }, .dTryLock)] else []
+    if sh.tokens > 0 then [({ sh with tokens := sh.tokens - 1, tl := t :: sh.tl }, .dTryLock)] else []
   | .dTryLock =>
     if d.runnable && d.O.isNone then
-      [({ sh with dq := { d with B := true, F := true, O := some t, D := false } }, .dInvoke)]
-    else [({ sh with dq := { d with E := false } }, .wIdle)]
-  | .dInvoke => if sh.items.isEmpty then [(sh, .dUnlock)] else [(sh, .dLoopHead)]
+      [({ sh with dq := { d with B := true, F := true, O := some t, D := false }, tl := rm sh.tl t,
+                  past := false, eOwned := true }, .dInvoke)]
+    else [({ sh with dq := { d with E := false }, tl := rm sh.tl t }, .wIdle)]
+  | .dInvoke => if sh.items.isEmpty then [({ sh with past := true }, .dUnlock)] else [(sh, .dLoopHead)]
   | .dLoopHead =>
     match sh.items with
     | [] => []
@@ -160,10 +171,10 @@ def step (sh : Sh) (t : Tid) (pc : Pc) (op : Op) : List (Sh × Pc) :=
       else [({ sh with items := rest }, .dRun h.id)]
   | .dRun id => [(sh, .dRunning id)]
   | .dRunning _ => [(sh, .dLoopNext)]
-  | .dLoopNext => if sh.items.isEmpty then [(sh, .dUnlock)] else [(sh, .dLoopHead)]
+  | .dLoopNext => if sh.items.isEmpty then [({ sh with past := true }, .dUnlock)] else [(sh, .dLoopHead)]
   | .dUnlock =>
-    if d.D then [({ sh with dq := { d with D := false } }, .dInvoke)]
-    else [({ sh with dq := { d with B := false, F := false, O := none, E := false } }, .wIdle)]
+    if d.D then [({ sh with dq := { d with D := false }, past := false }, .dInvoke)]
+    else [({ sh with dq := { d with B := false, F := false, O := none, E := false }, past := false, eOwned := false }, .wIdle)]
 
 /-- global state: shared part + one pc per thread (threads that do not exist yet are `idle`,
     so the number of threads is unbounded) -/
@@ -205,6 +216,7 @@ structure G (sh : Sh) : Prop where
 structure L (sh : Sh) (t : Tid) (pc : Pc) : Prop where
   own : holds pc = true → Locked sh.dq t ∧ t ∉ sh.signalled ∧ ∀ u, sh.xfer ≠ some (t, u)
   sg : ∀ w k, pc = .dbwSignal w k → sh.xfer = some (w, t)
+  conv : sh.dq.O = some t → holds pc = true ∨ t ∈ sh.signalled ∨ ∃ u, sh.xfer = some (t, u)
 
 structure Inv (s : St) : Prop where
   g : G s.sh
@@ -214,4 +226,4 @@ theorem locked_unique {d : Dq} {t t' : Tid} (h : Locked d t) (h' : Locked d t') 
   have := h.1.symm.trans h'.1
   exact Option.some.inj this
 
-end LaneM
+end LaneR
